@@ -3,5 +3,29 @@ BM = {
     "main": "src/bytecode_machine.cpp",
     "keep": ["BytecodeMachine::*", "Instruction::get*", "Program::getSize", "Program::op_call", "isZeroOrPowerOf2",
              "signExtend2sCompl", "unsigned*ToSigned2sCompl", "rx_*"],
-    "must_fire": {"class->struct": 5, "enum class": 1, "reference use -> deref": 100, "member -> self->": 50},
+    "dealias_unions": ["InstructionByteCode"],
+    "must_fire": {"anonymous union of pointers de-aliased": 2, "class->struct": 5, "enum class": 1, "reference use -> deref": 100, "member -> self->": 50},
 }
+
+RX_COMMIT = {
+    "main": "src/randomx.cpp",
+    "keep": ["randomx_calculate_commitment"],
+    "must_fire": {"class->struct": 10},
+}
+
+X86 = {"portable": False, "sys_includes": ["x86intrin.h"]}
+# size constants defined as differences of assembly symbol addresses are supplied by the measured header (rxv/asmsizes.py)
+JIT_DROP_SIZES = r"^const\s+int32_t\s+\w+\s*=\s*code\w+\s*-\s*code\w+\s*;"
+JIT_SIZES = {"asm_sizes": "src/jit_compiler_x86.cpp", "asm": "src/jit_compiler_x86_static.S", "out": "jit_sizes.h", "header": True}
+JIT_PROT = dict(X86, main="src/jit_compiler_x86.cpp", drop_vars=["JitCompilerX86::engine", JIT_DROP_SIZES],
+                keep=["JitCompilerX86::ctor", "JitCompilerX86::dtor", "JitCompilerX86::enableAll", "JitCompilerX86::enableWriting",
+                      "JitCompilerX86::enableExecution"])
+EXEC_REWRITE = [{"name": "call of generated code", "pattern": r"compiler\.getProgramFunc\(\)\(reg, mem, scratchpad, (\w+)\)",
+                 "repl": r"rxv_execute_program(&compiler, &reg, &mem, scratchpad, \1)"}]
+VM_COMPILED_LIGHT = dict(X86, main="src/vm_compiled_light.cpp", keep=["CompiledLightVm::setCache", "CompiledLightVm::run"],
+                         flatten={"root": "randomx_vm", "concrete": "CompiledLightVm",
+                                  "chain": ["randomx_vm", "VmBase", "CompiledVm", "CompiledLightVm"]},
+                         pre_rewrites=EXEC_REWRITE, must_fire={"object method call": 5})
+VM_COMPILED = dict(X86, main="src/vm_compiled.cpp", keep=["CompiledVm::ctor", "CompiledVm::run", "CompiledVm::execute", "CompiledVm::setDataset"],
+                   flatten={"root": "randomx_vm", "concrete": "CompiledVm", "chain": ["randomx_vm", "VmBase", "CompiledVm"]},
+                   pre_rewrites=EXEC_REWRITE, must_fire={"object method call": 4, "recipe rewrite: call of generated code": 1})
